@@ -22,7 +22,7 @@ deriving Repr
 def stepAtom (cfg : Cfg) (s : State) : Atom → State × List Ev
   | .tick t => prologue s t
   | .line t l => rxLine cfg t s l
-  | .mask m => (eventEnable s m, [])
+  | .mask m => (eventEnable cfg.enableKeepsInfo s m, [])
   | .chsw => ({ s with chswcd := 1 }, [])
 
 def runAtoms (cfg : Cfg) (s : State) : List Atom → State × List Ev
@@ -55,11 +55,11 @@ def Ev.isExtra : Ev → Bool
   | _ => false
 
 /-- the name `station_lookup` leaves in `n->name` -/
-def lkName (lk : Lookup) (c : Carrier) (v : Nat) : List Nat := if (lk c v).1 = 0 then [] else (lk c v).2.take 62
+def lkName (cfg : Cfg) (c : Carrier) (v : Nat) : List Nat := if (cfg.lk c v).1 = 0 then [] else (cfg.lk c v).2.take 62
 
 /-- result of the debounce for the reception a line constitutes -/
-def cniStep (lk : Lookup) (s : State) : Option (Carrier × Nat) → State × List Ev
-  | some (c, v) => cniRx lk c v s
+def cniStep (cfg : Cfg) (s : State) : Option (Carrier × Nat) → State × List Ev
+  | some (c, v) => cniRx cfg c v s
   | none => (s, [])
 
 /-- number of NETWORK events -/
